@@ -225,7 +225,12 @@ def canon_out(b):
 def run(ctx):
     res = ctx.res
     rng = ctx.rng
-    vi = vlib.build_vi()
+    vi_real = vlib.build_vi()
+    # a broken scan loop can append to its buffer for ever: cap the address space of every editor run
+    vi = os.path.join(vlib.tmpdir(), 'vi_limited')
+    with open(vi, 'w') as f:
+        f.write('#!/bin/sh\nulimit -v 1048576\nexec %s "$@"\n' % vi_real)
+    os.chmod(vi, 0o755)
     probe = vlib.build_probe('rstr', includes=['rstr'])
     model = ctx.model('subst')
     res.rule = ('one evaluation = one ex script (option ic/noic, one or two :s commands with ranges, %p, w) on a small buffer, compared as %p output and written file; '
@@ -288,12 +293,20 @@ def run(ctx):
     def run_impl(c, timeout=10):
         return vlib.run_ex(vi, script_of(c), files={'f': file_of(c)}, args=['f'], readback=['o'], timeout=timeout)
 
-    outs = vlib.pmap(run_impl, cases)
+    ncorp = len([c for c in cases if c.get('corpus')])
+    outs = vlib.pmap(run_impl, cases[:ncorp])
+    if any(r.timed_out for r in outs):
+        # the corpus already hangs: do not wait for thousands of generated scripts to time out
+        cases = cases[:ncorp]
+    else:
+        outs += vlib.pmap(run_impl, cases[ncorp:])
+    nhang = 0
     for i, (c, r) in enumerate(zip(cases, outs)):
-        if r.crashed():
+        if r.crashed() and nhang < 6:
             r2 = run_impl(c, timeout=30)
             outs[i] = r2
             if r2.crashed():
+                nhang += 1
                 res.violation({'what': 'the editor %s on a substitute script' % ('hangs' if r2.timed_out else 'crashes (rc=%s)' % r2.rc),
                                'input': [{'ic': c['ic'], 'lines': c['lines'], 'cmds': [{'text': cm['text']} for cm in c['cmds']]}],
                                'script': script_of(c).decode('utf-8', 'replace'), 'stderr': r2.err[-1500:].decode('utf-8', 'replace')})
